@@ -55,6 +55,21 @@ func MarkupObs(lp *markup.LineParser, line string) (out string) {
 	for _, a := range res.Attributes {
 		tfa = append(tfa, markupTFA(res, a))
 	}
+	// the accessor by name: the first attribute of that name, and nothing for a name that does not occur
+	seen := map[string]bool{}
+	for _, a := range res.Attributes {
+		if seen[a.Name] {
+			continue
+		}
+		seen[a.Name] = true
+		got, ok := res.Attribute(a.Name)
+		if !ok || got.Name != a.Name || got.Position != a.Position || got.Length != a.Length {
+			return "LOOKUP-BAD " + obs.Esc(a.Name)
+		}
+	}
+	if _, ok := res.Attribute("\x00 no such name"); ok {
+		return "LOOKUP-BAD (absent name found)"
+	}
 	return "OK|" + obs.Esc(res.Text) + "|" + Attrs(res.Attributes) + "|" + strings.Join(tfa, ";")
 }
 
